@@ -130,7 +130,11 @@ def ordinal_case(rng, m=None, n=None, kind=None, max_mult=4, style=None, tie_p=0
         # multiplicities far beyond the number of orders
         m = rng.randint(9, 14)
         n = rng.randint(7, 25)
-        max_mult = rng.choice([max_mult, 100, 1000])      # (the specifications are evaluated voter by voter)
+        if rng.random() < 0.25:
+            # ... and past the usual powers of two (chunk, cache and width boundaries)
+            m = rng.choice([17, 33])
+            n = rng.choice([12, 40])
+        max_mult = rng.choice([max_mult, 100, 1000, "huge"])
     kind = kind or rng.choice(["soc", "soi", "toc", "toi"])
     alts = alt_ids(rng, m, style)
     alts_store = perm(rng, alts) if rng.random() < 0.3 else alts
@@ -149,8 +153,17 @@ def ordinal_case(rng, m=None, n=None, kind=None, max_mult=4, style=None, tie_p=0
             continue
         seen.add(o)
         orders.append(o)
-    prof = [(o, rng.randint(1, max_mult)) for o in orders]
-    return {"type": infer_type(orders, m), "alts": alts_store, "profile": to_json_profile(prof)}
+    if max_mult == "huge":
+        # electorates far too large to list voter by voter (one-voter majorities included): the driver is asked
+        # not to evaluate the voter-level specification (`nospec`); the model, proved equal to it, stands in
+        base = rng.choice([500000, 10 ** 6, 2 ** 53, 10 ** 18])
+        prof = [(o, base + rng.choice([0, 0, 1, 2, 7])) for o in orders]
+    else:
+        prof = [(o, rng.randint(1, max_mult)) for o in orders]
+    d = {"type": infer_type(orders, m), "alts": alts_store, "profile": to_json_profile(prof)}
+    if sum(k for _, k in prof) > 20000:
+        d["nospec"] = True
+    return d
 
 
 def inst_of(case, data_type=None):
@@ -160,6 +173,9 @@ def inst_of(case, data_type=None):
 
 def model_inst(case, **extra):
     d = {"type": case["type"], "alts": case["alts"], "profile": case["profile"]}
+    nv, m = sum(k for _, k in case["profile"]), len(case["alts"])
+    if case.get("nospec") or nv > 20000 or nv * m ** 3 > 500000:
+        d["nospec"] = True      # the voter-by-voter specification costs about nv * m^3 steps
     d.update(extra)
     return d
 
@@ -223,6 +239,8 @@ def _add_batch(inst, batch, via):
 
 
 def _entry_points(batch):
+    if any(m > 2000 for _, m in batch):
+        return ["vote_map"]          # the other entry points take one ballot per voter
     vias = ["vote_map", "order_list"]
     if batch and all(len(c) == 1 for o, _ in batch for c in o):
         vias.append("order")
